@@ -33,7 +33,7 @@ def tree_stages(ctx):
         stages.stage_sim(ctx, "Tree", num=300, depth=30)
     else:
         stages.stage_mc(ctx, "Tree", timeout=3000)
-        stages.stage_sim(ctx, "Tree", num=400, depth=40)
+        stages.stage_sim(ctx, "Tree", num=600, depth=30)     # (depth 40 made the simulator several times slower per step)
 
 
 RULE_WALK = ("cases are transitions of the bounded TLA+ model (Gtirb.tla under the listed configurations), each "
@@ -192,7 +192,10 @@ def lazy_class_stage(ctx):
         raise MachineryFailure("LazyIndex simulate: %s" % (r.errors or [r.violation])[0][:800])
     gets = steps = 0
     branches = {}
-    for path in sorted(glob.glob(os.path.join(r.workdir, "sim", "b_*"))):
+    paths = sorted(glob.glob(os.path.join(r.workdir, "sim", "b_*")))
+    if getattr(r, "sim_aborted", False) and paths:
+        paths = sorted(paths, key=os.path.getmtime)[:-1]
+    for path in [x for x in paths if os.path.getsize(x) > 0]:
         env = LazyClassEnv(vals)
         for v0 in sorted(vals - {"b6"}):
             env.step({"name": "add", "v": v0})
